@@ -88,3 +88,31 @@ package querylog
 //@   ensures (err == nil) == (lineIdx != lastProbeLineIdx && lineIdx != fSize)
 //@   ensures lineIdx == lastProbeLineIdx && lineIdx == 0 ==> err == errTSTooEarly
 //@   ensures lineIdx != lastProbeLineIdx && lineIdx == fSize ==> err == errTSTooLate
+
+// ---- timestamp seek ----
+// tsOf(line) is the timestamp field of a log line (readQLogTimestamp; JSON field extraction is not verified);
+// lineTS(f, s) is the timestamp of the line of file f that starts at s.
+
+//@ declare tsOf(line string) int
+//@ declare lineTS(f *os.File, s int) int
+//@ axiom lineTS_def: forall line string, f *os.File, a int :: 0 <= a && a <= os.fsize(f) && lineIs(line, f, a, lineEnd(f, a)) ==> tsOf(line) == lineTS(f, a)
+
+//@ func readQLogTimestamp(ctx context.Context, logger *slog.Logger, str string) (r0 int64)
+//@   trusted
+//@   modifies nothing
+//@   ensures r0 == tsOf(str)
+
+//@ define lineBoundary(f *os.File, p int) bool = 0 <= p && p <= os.fsize(f) && (p == os.fsize(f) || lineStart(f, p) == p)
+//@ define shortLines(f *os.File) bool = forall p int :: 0 <= p && p <= os.fsize(f) ==> p - lineStart(f, p) < 16384 && lineEnd(f, p) - p < 16384
+
+//@ func (q *qLogFile) seekTS(ctx context.Context, logger *slog.Logger, timestamp int64) (pos int64, depth int, err error)
+//@   property C20
+//@   requires !held(q.lock) && shortLines(q.file)
+//@   modifies q.buffer, q.position, fpos, LockW
+//@   ensures found: err == nil ==> pos == q.position && 0 <= pos && pos <= os.fsize(q.file) && (pos == os.fsize(q.file) || os.fbyte(q.file, pos) == 10) && lineTS(q.file, lineStart(q.file, pos)) == timestamp
+//@   ensures buffer-reset: q.buffer == nil
+//@   ensures !held(q.lock)
+//@   loop 1 invariant 0 <= start && start <= os.fsize(q.file) && 0 <= end && end <= os.fsize(q.file) && min(start, end) <= probe && probe <= max(start, end)
+//@   loop 1 invariant lineBoundary(q.file, start) && lineBoundary(q.file, end)
+//@   loop 1 invariant 0 <= depth && depth < 100 && q.buffer == nil && held(q.lock)
+//@   loop 1 decreases 100 - depth
